@@ -75,6 +75,7 @@ def gen_plan(rng, profile: dict, seed: int) -> dict:
             "as_single": n_mi == 1 and rng.random() < 0.5,
             "is_torus": rng.random() < 0.5,
             "mutate_and_repeat": rng.random() < 0.3,
+            "devices_default": ndev == 4 and rng.random() < 0.5,  # devices=None means every visible device (4 here)
         }
     nb = rng.randint(1, 4)
     L = nb * B + rng.randint(0, B - 1)
@@ -215,7 +216,9 @@ def execute(plan: dict, ctx: dict) -> dict:
         key = None if plan["key"] is None else jax.random.PRNGKey(plan["key"])
         arg = mis[0] if plan.get("as_single") else tuple(mis)
         try:
-            out = ml.get_batches(arg, B, key, devices(ndev))
+            out = ml.get_batches(arg, B, key, None if plan.get("devices_default") else devices(ndev))
+            if plan.get("devices_default"):
+                bump("devices_default")
             flat = check_call(mis, plan["specs"], L, B, key is None, ndev, out, viol, site, bump)
             evals += 1
             if flat is not None and ndev > 1:
